@@ -95,7 +95,7 @@ def completion_oracles(ev, done_t, cands, servers, rc, rto):
                     bad.append(("missing-candidate", f"the STUN server answered request {txid[:8]}.. from {r['src']} with success at "
                                                      f"t={a[0]} (before completion at t={done_t}) supplying {sorted(want)}, but no "
                                                      f"server-reflexive candidate with that address exists for component {comp}"))
-        elif kind_of.get(r["dst"]) == "turn" and r["method"] == "3":
+        elif kind_of.get(r["dst"]) == "turn" and r["method"] == "3" and r["dst"] not in redirected:
             if behs and all(b in "sSl" and au == 1 for b, au, _, _ in behs):
                 want = {r["dst"].split(":")[0] + ":"}
                 if not any(c[0] == 3 and c[1] == comp and any(c[2].startswith(w) for w in want) for c in cands):
